@@ -662,7 +662,11 @@ func run(c *core.Ctx) {
 		if !d.Valid {
 			continue
 		}
-		for _, se := range []string{strings.ToUpper(extOf(d.Format)), mixed(extOf(d.Format))} {
+		ses := []string{strings.ToUpper(extOf(d.Format)), mixed(extOf(d.Format))}
+		if d.Format == "ssa" {
+			ses = append(ses, ".ass", ".ASS", ".Ass")
+		}
+		for _, se := range ses {
 			for _, de := range []string{".SRT", ".Vtt", ".TTML", ".Ass", ".sTl"} {
 				if !c.Mine() {
 					continue
